@@ -1,7 +1,7 @@
 //! C13 — speculative execution is idempotent-only, bounded, and first real answer wins.
 //!
 //! Cases (virtual time in ms, tokio current-thread runtime started paused):
-//! * `ign <Outcome>`                      — `can_be_ignored` on one result (`ok` or an error name);
+//! * `class <ok|Error>`                  — the real `can_be_ignored` on one value of the error universe (`Name` or `Name(payload,...)`): `ignorable` / `definitive`;
 //! * `spec <max> <interval> <d>:<o> ...`  — the real `speculative_execution::execute` over synthetic fibers:
 //!   the i-th fiber created by the generator sleeps `d_i` ms (0 = does not sleep at all) and returns `o_i`
 //!   (`ok`, `none` = plan exhausted, or an error name); fibers beyond the script return `none` at once;
@@ -93,11 +93,6 @@ const IGNORABLE: [&str; 13] = [
     "RateLimitReached",
 ];
 
-/// A pool of ignorable / definitive error names indexed by fiber, so that every fiber of a case returns a
-/// distinguishable error.
-const IGN_POOL: [&str; 6] = ["BrokenConnectionError", "Overloaded", "Unavailable", "ServerError", "UnableToAllocStreamId", "ReadTimeout"];
-const DEF_POOL: [&str; 6] = ["Invalid", "SyntaxError", "Unauthorized", "AlreadyExists", "ProtocolError", "CqlResultParseError"];
-
 #[derive(Debug)]
 struct StrErr(&'static str);
 impl std::fmt::Display for StrErr {
@@ -107,29 +102,138 @@ impl std::fmt::Display for StrErr {
 }
 impl std::error::Error for StrErr {}
 
-fn db_error(name: &str) -> Option<DbError> {
-    let c = Consistency::Quorum;
-    Some(match name {
-        "SyntaxError" => DbError::SyntaxError,
-        "Invalid" => DbError::Invalid,
-        "AlreadyExists" => DbError::AlreadyExists { keyspace: "ks".into(), table: "t".into() },
-        "FunctionFailure" => DbError::FunctionFailure { keyspace: "ks".into(), function: "f".into(), arg_types: vec!["int".into()] },
-        "AuthenticationError" => DbError::AuthenticationError,
-        "Unauthorized" => DbError::Unauthorized,
-        "ConfigError" => DbError::ConfigError,
-        "Unavailable" => DbError::Unavailable { consistency: c, required: 2, alive: 1 },
-        "Overloaded" => DbError::Overloaded,
-        "IsBootstrapping" => DbError::IsBootstrapping,
-        "TruncateError" => DbError::TruncateError,
-        "ReadTimeout" => DbError::ReadTimeout { consistency: c, received: 1, required: 2, data_present: true },
-        "WriteTimeout" => DbError::WriteTimeout { consistency: c, received: 1, required: 2, write_type: WriteType::Simple },
-        "ReadFailure" => DbError::ReadFailure { consistency: c, received: 1, required: 2, numfailures: 1, data_present: false },
-        "WriteFailure" => DbError::WriteFailure { consistency: c, received: 1, required: 2, numfailures: 1, write_type: WriteType::Batch },
-        "Unprepared" => DbError::Unprepared { statement_id: bytes::Bytes::from_static(b"id") },
-        "ServerError" => DbError::ServerError,
-        "ProtocolError" => DbError::ProtocolError,
-        "RateLimitReached" => DbError::RateLimitReached { op_type: OperationType::Write, rejected_by_coordinator: true },
-        "Other" => DbError::Other(0x1234),
+// An error value on the wire is `Name` or `Name(arg,...)`; a bare name of a variant with a payload stands for a
+// default payload (the same default as in Drive/C13.lean).
+
+const CONSISTENCIES: [(&str, Consistency); 11] = [
+    ("Any", Consistency::Any),
+    ("One", Consistency::One),
+    ("Two", Consistency::Two),
+    ("Three", Consistency::Three),
+    ("Quorum", Consistency::Quorum),
+    ("All", Consistency::All),
+    ("LocalQuorum", Consistency::LocalQuorum),
+    ("EachQuorum", Consistency::EachQuorum),
+    ("LocalOne", Consistency::LocalOne),
+    ("Serial", Consistency::Serial),
+    ("LocalSerial", Consistency::LocalSerial),
+];
+
+fn cl_arg(s: &str) -> Option<Consistency> {
+    CONSISTENCIES.iter().find(|(n, _)| *n == s).map(|(_, c)| *c)
+}
+
+fn wt_arg(s: &str) -> Option<WriteType> {
+    Some(match s {
+        "Simple" => WriteType::Simple,
+        "Batch" => WriteType::Batch,
+        "UnloggedBatch" => WriteType::UnloggedBatch,
+        "Counter" => WriteType::Counter,
+        "BatchLog" => WriteType::BatchLog,
+        "Cas" => WriteType::Cas,
+        "View" => WriteType::View,
+        "Cdc" => WriteType::Cdc,
+        _ => return None,
+    })
+}
+
+fn bool_arg(s: &str) -> Option<bool> {
+    match s {
+        "1" => Some(true),
+        "0" => Some(false),
+        _ => None,
+    }
+}
+
+fn op_arg(s: &str) -> Option<OperationType> {
+    match s {
+        "Read" => Some(OperationType::Read),
+        "Write" => Some(OperationType::Write),
+        _ => s.strip_prefix("Other").and_then(|n| n.parse::<u8>().ok()).map(OperationType::Other),
+    }
+}
+
+fn split_tok(tok: &str) -> Option<(&str, Vec<&str>)> {
+    match tok.split_once('(') {
+        None => Some((tok, vec![])),
+        Some((n, rest)) => {
+            let inner = rest.strip_suffix(')')?;
+            if inner.contains('(') {
+                return None;
+            }
+            Some((n, if inner.is_empty() { vec![] } else { inner.split(',').collect() }))
+        }
+    }
+}
+
+/// The variant name of a token.
+fn kind_of(tok: &str) -> &str {
+    tok.split('(').next().unwrap_or(tok)
+}
+
+fn db_error(name: &str, a: &[&str]) -> Option<DbError> {
+    let i = |s: &str| s.parse::<i32>().ok();
+    Some(match (name, a) {
+        ("SyntaxError", []) => DbError::SyntaxError,
+        ("Invalid", []) => DbError::Invalid,
+        ("AlreadyExists", []) => DbError::AlreadyExists { keyspace: "ks".into(), table: "t".into() },
+        ("AlreadyExists", [k, t]) => DbError::AlreadyExists { keyspace: (*k).into(), table: (*t).into() },
+        ("FunctionFailure", []) => DbError::FunctionFailure { keyspace: "ks".into(), function: "f".into(), arg_types: vec!["int".into()] },
+        ("FunctionFailure", [k, f, n]) => DbError::FunctionFailure {
+            keyspace: (*k).into(),
+            function: (*f).into(),
+            arg_types: vec!["int".to_owned(); n.parse::<usize>().ok()?],
+        },
+        ("AuthenticationError", []) => DbError::AuthenticationError,
+        ("Unauthorized", []) => DbError::Unauthorized,
+        ("ConfigError", []) => DbError::ConfigError,
+        ("Unavailable", []) => DbError::Unavailable { consistency: Consistency::Quorum, required: 2, alive: 1 },
+        ("Unavailable", [c, r, al]) => DbError::Unavailable { consistency: cl_arg(c)?, required: i(r)?, alive: i(al)? },
+        ("Overloaded", []) => DbError::Overloaded,
+        ("IsBootstrapping", []) => DbError::IsBootstrapping,
+        ("TruncateError", []) => DbError::TruncateError,
+        ("ReadTimeout", []) => DbError::ReadTimeout { consistency: Consistency::Quorum, received: 1, required: 2, data_present: true },
+        ("ReadTimeout", [c, rc, rq, dp]) => {
+            DbError::ReadTimeout { consistency: cl_arg(c)?, received: i(rc)?, required: i(rq)?, data_present: bool_arg(dp)? }
+        }
+        ("WriteTimeout", []) => {
+            DbError::WriteTimeout { consistency: Consistency::Quorum, received: 1, required: 2, write_type: WriteType::Simple }
+        }
+        ("WriteTimeout", [c, rc, rq, wt]) => {
+            DbError::WriteTimeout { consistency: cl_arg(c)?, received: i(rc)?, required: i(rq)?, write_type: wt_arg(wt)? }
+        }
+        ("ReadFailure", []) => {
+            DbError::ReadFailure { consistency: Consistency::Quorum, received: 1, required: 2, numfailures: 1, data_present: false }
+        }
+        ("ReadFailure", [c, rc, rq, nf, dp]) => DbError::ReadFailure {
+            consistency: cl_arg(c)?,
+            received: i(rc)?,
+            required: i(rq)?,
+            numfailures: i(nf)?,
+            data_present: bool_arg(dp)?,
+        },
+        ("WriteFailure", []) => DbError::WriteFailure {
+            consistency: Consistency::Quorum,
+            received: 1,
+            required: 2,
+            numfailures: 1,
+            write_type: WriteType::Batch,
+        },
+        ("WriteFailure", [c, rc, rq, nf, wt]) => DbError::WriteFailure {
+            consistency: cl_arg(c)?,
+            received: i(rc)?,
+            required: i(rq)?,
+            numfailures: i(nf)?,
+            write_type: wt_arg(wt)?,
+        },
+        ("Unprepared", []) => DbError::Unprepared { statement_id: bytes::Bytes::from_static(b"id") },
+        ("Unprepared", [h]) => DbError::Unprepared { statement_id: bytes::Bytes::from(crate::util::unhex(h)?) },
+        ("ServerError", []) => DbError::ServerError,
+        ("ProtocolError", []) => DbError::ProtocolError,
+        ("RateLimitReached", []) => DbError::RateLimitReached { op_type: OperationType::Write, rejected_by_coordinator: true },
+        ("RateLimitReached", [op, f]) => DbError::RateLimitReached { op_type: op_arg(op)?, rejected_by_coordinator: bool_arg(f)? },
+        ("Other", []) => DbError::Other(0x1234),
+        ("Other", [c]) => DbError::Other(i(c)?),
         _ => return None,
     })
 }
@@ -138,43 +242,243 @@ fn low_level() -> scylla_cql_core::frame::frame_errors::LowLevelDeserializationE
     scylla_cql_core::frame::frame_errors::LowLevelDeserializationError::InvalidValueLength(-7)
 }
 
-fn attempt_error(name: &str) -> Option<RequestAttemptError> {
-    if let Some(db) = db_error(name) {
-        return Some(RequestAttemptError::DbError(db, "msg".into()));
-    }
-    Some(match name {
-        "SerializationError" => RequestAttemptError::SerializationError(SerializationError::new(StrErr("ser"))),
-        "CqlRequestSerialization" => RequestAttemptError::CqlRequestSerialization(
-            CqlRequestSerializationError::SnapCompressError(Arc::new(StrErr("snap"))),
-        ),
-        "UnableToAllocStreamId" => RequestAttemptError::UnableToAllocStreamId,
-        "BrokenConnectionError" => RequestAttemptError::BrokenConnectionError(BrokenConnectionError::from(
-            BrokenConnectionErrorKind::ChannelError,
-        )),
-        "BodyExtensionsParseError" => {
-            RequestAttemptError::BodyExtensionsParseError(FrameBodyExtensionsParseError::NoCompressionNegotiated)
+fn io_err(kind: &str) -> Option<std::io::Error> {
+    let k = match kind {
+        "BrokenPipe" => std::io::ErrorKind::BrokenPipe,
+        "ConnectionReset" => std::io::ErrorKind::ConnectionReset,
+        "TimedOut" => std::io::ErrorKind::TimedOut,
+        "UnexpectedEof" => std::io::ErrorKind::UnexpectedEof,
+        _ => return None,
+    };
+    Some(std::io::Error::new(k, "verif"))
+}
+
+fn broken_kind(a: &[&str]) -> Option<BrokenConnectionErrorKind> {
+    use scylla::errors::FrameHeaderParseError as H;
+    Some(match a {
+        [] | ["ChannelError"] => BrokenConnectionErrorKind::ChannelError,
+        ["KeepaliveTimeout"] => BrokenConnectionErrorKind::KeepaliveTimeout(std::net::IpAddr::from([127, 0, 0, 1])),
+        ["KeepaliveRequestError"] => BrokenConnectionErrorKind::KeepaliveRequestError(Arc::new(StrErr("keepalive"))),
+        ["FrameHeaderParseError", sub] => BrokenConnectionErrorKind::FrameHeaderParseError(match *sub {
+            "HeaderIoError" => H::HeaderIoError(io_err("UnexpectedEof")?),
+            "FrameFromClient" => H::FrameFromClient,
+            "FrameFromServer" => H::FrameFromServer,
+            "VersionNotSupported" => H::VersionNotSupported(3),
+            "ConnectionClosed" => H::ConnectionClosed(9, 4),
+            _ => return None,
+        }),
+        ["CqlEventHandlingError"] => {
+            BrokenConnectionErrorKind::CqlEventHandlingError(scylla::errors::CqlEventHandlingError::SendError)
         }
-        "CqlResultParseError" => RequestAttemptError::CqlResultParseError(CqlResultParseError::UnknownResultId(77)),
-        "CqlErrorParseError" => RequestAttemptError::CqlErrorParseError(CqlErrorParseError::ErrorCodeParseError(low_level())),
-        "UnexpectedResponse" => RequestAttemptError::UnexpectedResponse(CqlResponseKind::Ready),
-        "RepreparedIdChanged" => RequestAttemptError::RepreparedIdChanged {
-            statement: "s".into(),
-            expected_id: vec![1],
-            reprepared_id: vec![2],
-        },
-        "RepreparedIdMissingInBatch" => RequestAttemptError::RepreparedIdMissingInBatch,
-        "NonfinishedPagingState" => RequestAttemptError::NonfinishedPagingState,
+        ["UnexpectedStreamId", n] => BrokenConnectionErrorKind::UnexpectedStreamId(n.parse().ok()?),
+        ["WriteError", k] => BrokenConnectionErrorKind::WriteError(io_err(k)?),
+        ["TooManyOrphanedStreamIds", n] => BrokenConnectionErrorKind::TooManyOrphanedStreamIds(n.parse().ok()?),
         _ => return None,
     })
 }
 
-fn request_error(name: &str) -> Option<RequestError> {
+fn sub_arg<'a>(allowed: &[&'a str], a: &[&str]) -> Option<&'a str> {
+    match a {
+        [] => allowed.first().copied(),
+        [x] => allowed.iter().find(|y| *y == x).copied(),
+        _ => None,
+    }
+}
+
+fn attempt_error_parts(name: &str, a: &[&str]) -> Option<RequestAttemptError> {
+    use scylla_cql_core::frame::frame_errors::BatchSerializationError;
     Some(match name {
-        "EmptyPlan" => RequestError::EmptyPlan,
-        "ConnectionPoolError" => RequestError::ConnectionPoolError(ConnectionPoolError::Initializing),
-        "RequestTimeout" => RequestError::RequestTimeout(Duration::from_millis(5)),
-        _ => RequestError::LastAttemptError(attempt_error(name)?),
+        "SerializationError" if a.is_empty() => RequestAttemptError::SerializationError(SerializationError::new(StrErr("ser"))),
+        "CqlRequestSerialization" => RequestAttemptError::CqlRequestSerialization(
+            match sub_arg(&["SnapCompressError", "BatchTooManyStatements", "BatchLengthMismatch"], a)? {
+                "SnapCompressError" => CqlRequestSerializationError::SnapCompressError(Arc::new(StrErr("snap"))),
+                "BatchTooManyStatements" => {
+                    CqlRequestSerializationError::BatchSerialization(BatchSerializationError::TooManyStatements(70000))
+                }
+                _ => CqlRequestSerializationError::BatchSerialization(BatchSerializationError::ValuesAndStatementsLengthMismatch {
+                    n_value_lists: 1,
+                    n_statements: 2,
+                }),
+            },
+        ),
+        "UnableToAllocStreamId" if a.is_empty() => RequestAttemptError::UnableToAllocStreamId,
+        "BrokenConnectionError" => RequestAttemptError::BrokenConnectionError(BrokenConnectionError::from(broken_kind(a)?)),
+        "BodyExtensionsParseError" => RequestAttemptError::BodyExtensionsParseError(
+            match sub_arg(&["NoCompressionNegotiated", "TraceIdParse", "WarningsListParse", "CustomPayloadMapParse", "SnapDecompressError"], a)? {
+                "NoCompressionNegotiated" => FrameBodyExtensionsParseError::NoCompressionNegotiated,
+                "TraceIdParse" => FrameBodyExtensionsParseError::TraceIdParse(low_level()),
+                "WarningsListParse" => FrameBodyExtensionsParseError::WarningsListParse(low_level()),
+                "CustomPayloadMapParse" => FrameBodyExtensionsParseError::CustomPayloadMapParse(low_level()),
+                _ => FrameBodyExtensionsParseError::SnapDecompressError(Arc::new(StrErr("snap"))),
+            },
+        ),
+        "CqlResultParseError" => RequestAttemptError::CqlResultParseError(
+            match sub_arg(&["UnknownResultId", "ResultIdParseError", "SetKeyspaceParseError"], a)? {
+                "UnknownResultId" => CqlResultParseError::UnknownResultId(77),
+                "ResultIdParseError" => CqlResultParseError::ResultIdParseError(low_level()),
+                _ => CqlResultParseError::SetKeyspaceParseError(
+                    scylla_cql_core::frame::frame_errors::SetKeyspaceParseError::MalformedKeyspaceName(low_level()),
+                ),
+            },
+        ),
+        "CqlErrorParseError" => RequestAttemptError::CqlErrorParseError(
+            match sub_arg(&["ErrorCodeParseError", "ReasonParseError", "MalformedErrorField"], a)? {
+                "ErrorCodeParseError" => CqlErrorParseError::ErrorCodeParseError(low_level()),
+                "ReasonParseError" => CqlErrorParseError::ReasonParseError(low_level()),
+                _ => CqlErrorParseError::MalformedErrorField { db_error: "RATE_LIMIT_ERROR", field: "OP_TYPE", err: low_level() },
+            },
+        ),
+        "UnexpectedResponse" => RequestAttemptError::UnexpectedResponse(
+            match sub_arg(&["Ready", "Error", "Authenticate", "Supported", "Result", "Event", "AuthChallenge", "AuthSuccess"], a)? {
+                "Ready" => CqlResponseKind::Ready,
+                "Error" => CqlResponseKind::Error,
+                "Authenticate" => CqlResponseKind::Authenticate,
+                "Supported" => CqlResponseKind::Supported,
+                "Result" => CqlResponseKind::Result,
+                "Event" => CqlResponseKind::Event,
+                "AuthChallenge" => CqlResponseKind::AuthChallenge,
+                _ => CqlResponseKind::AuthSuccess,
+            },
+        ),
+        "RepreparedIdChanged" if a.is_empty() => {
+            RequestAttemptError::RepreparedIdChanged { statement: "s".into(), expected_id: vec![1], reprepared_id: vec![2] }
+        }
+        "RepreparedIdMissingInBatch" if a.is_empty() => RequestAttemptError::RepreparedIdMissingInBatch,
+        "NonfinishedPagingState" if a.is_empty() => RequestAttemptError::NonfinishedPagingState,
+        _ => RequestAttemptError::DbError(db_error(name, a)?, "msg".into()),
     })
+}
+
+/// Builds the REAL attempt error named by a token.
+fn attempt_error(tok: &str) -> Option<RequestAttemptError> {
+    let (name, a) = split_tok(tok)?;
+    attempt_error_parts(name, &a)
+}
+
+/// Builds the REAL request error named by a token.
+fn request_error(tok: &str) -> Option<RequestError> {
+    let (name, a) = split_tok(tok)?;
+    Some(match (name, a.as_slice()) {
+        ("EmptyPlan", []) => RequestError::EmptyPlan,
+        ("ConnectionPoolError", []) | ("ConnectionPoolError", ["Initializing"]) => {
+            RequestError::ConnectionPoolError(ConnectionPoolError::Initializing)
+        }
+        ("ConnectionPoolError", ["Broken"]) => RequestError::ConnectionPoolError(ConnectionPoolError::Broken {
+            last_connection_error: scylla::errors::ConnectionError::ConnectTimeout,
+        }),
+        ("ConnectionPoolError", ["NodeDisabledByHostFilter"]) => {
+            RequestError::ConnectionPoolError(ConnectionPoolError::NodeDisabledByHostFilter)
+        }
+        ("RequestTimeout", []) => RequestError::RequestTimeout(Duration::from_millis(5)),
+        ("RequestTimeout", [ms]) => RequestError::RequestTimeout(Duration::from_millis(ms.parse().ok()?)),
+        _ => RequestError::LastAttemptError(attempt_error_parts(name, &a)?),
+    })
+}
+
+/// The attempt-error part of the universe: every `RequestAttemptError` variant, every nested variant the harness
+/// can build, every `DbError` variant with boundary payloads (both flag values, every operation / write type).
+fn attempt_universe() -> Vec<String> {
+    let mut u: Vec<String> = Vec::new();
+    let mut p = |s: &str| u.push(s.to_owned());
+    p("SerializationError");
+    for s in ["SnapCompressError", "BatchTooManyStatements", "BatchLengthMismatch"] {
+        p(&format!("CqlRequestSerialization({})", s));
+    }
+    p("UnableToAllocStreamId");
+    for s in [
+        "KeepaliveTimeout",
+        "KeepaliveRequestError",
+        "FrameHeaderParseError,HeaderIoError",
+        "FrameHeaderParseError,FrameFromClient",
+        "FrameHeaderParseError,FrameFromServer",
+        "FrameHeaderParseError,VersionNotSupported",
+        "FrameHeaderParseError,ConnectionClosed",
+        "CqlEventHandlingError",
+        "UnexpectedStreamId,7",
+        "UnexpectedStreamId,-1",
+        "WriteError,BrokenPipe",
+        "WriteError,ConnectionReset",
+        "WriteError,TimedOut",
+        "TooManyOrphanedStreamIds,9",
+        "ChannelError",
+    ] {
+        p(&format!("BrokenConnectionError({})", s));
+    }
+    for s in ["NoCompressionNegotiated", "TraceIdParse", "WarningsListParse", "CustomPayloadMapParse", "SnapDecompressError"] {
+        p(&format!("BodyExtensionsParseError({})", s));
+    }
+    for s in ["UnknownResultId", "ResultIdParseError", "SetKeyspaceParseError"] {
+        p(&format!("CqlResultParseError({})", s));
+    }
+    for s in ["ErrorCodeParseError", "ReasonParseError", "MalformedErrorField"] {
+        p(&format!("CqlErrorParseError({})", s));
+    }
+    for s in ["Ready", "Error", "Authenticate", "Supported", "Result", "Event", "AuthChallenge", "AuthSuccess"] {
+        p(&format!("UnexpectedResponse({})", s));
+    }
+    p("RepreparedIdChanged");
+    p("RepreparedIdMissingInBatch");
+    p("NonfinishedPagingState");
+    // DbError
+    for s in ["SyntaxError", "Invalid", "AuthenticationError", "Unauthorized", "ConfigError", "Overloaded", "IsBootstrapping", "TruncateError", "ServerError", "ProtocolError"] {
+        p(s);
+    }
+    p("AlreadyExists(ks,tbl)");
+    p("AlreadyExists(,)");
+    p("FunctionFailure(ks,fn,0)");
+    p("FunctionFailure(ks,fn,3)");
+    for (cl, _) in CONSISTENCIES {
+        p(&format!("Unavailable({},2,1)", cl));
+    }
+    for (r, a) in [(0, 0), (1, 0), (3, 3), (2147483647, -1), (-2147483648, 2147483647)] {
+        p(&format!("Unavailable(Quorum,{},{})", r, a));
+    }
+    for dp in [0, 1] {
+        for (rc, rq) in [(0, 1), (1, 2), (2, 2), (3, 2), (-1, 2147483647)] {
+            p(&format!("ReadTimeout(LocalQuorum,{},{},{})", rc, rq, dp));
+            p(&format!("ReadFailure(One,{},{},{},{})", rc, rq, (rc + 1) % 3, dp));
+        }
+    }
+    for wt in ["Simple", "Batch", "UnloggedBatch", "Counter", "BatchLog", "Cas", "View", "Cdc"] {
+        for (rc, rq) in [(0, 1), (1, 2), (2, 2)] {
+            p(&format!("WriteTimeout(Quorum,{},{},{})", rc, rq, wt));
+            p(&format!("WriteFailure(All,{},{},1,{})", rc, rq, wt));
+        }
+    }
+    p("Unprepared(-)");
+    p("Unprepared(00)");
+    p("Unprepared(deadbeef0123456789abcdef00112233)");
+    for op in ["Read", "Write", "Other0", "Other2", "Other255"] {
+        for f in [0, 1] {
+            p(&format!("RateLimitReached({},{})", op, f));
+        }
+    }
+    for c in [0, 1, -1, 0x1234, 0x4321, 2147483647, -2147483648i64] {
+        p(&format!("Other({})", c));
+    }
+    u
+}
+
+/// The whole error universe: `RequestError` = `EmptyPlan | ConnectionPoolError(..) | RequestTimeout(..) | LastAttemptError(..)`.
+fn universe() -> Vec<String> {
+    let mut u: Vec<String> = vec![
+        "EmptyPlan".to_owned(),
+        "ConnectionPoolError(Broken)".to_owned(),
+        "ConnectionPoolError(Initializing)".to_owned(),
+        "ConnectionPoolError(NodeDisabledByHostFilter)".to_owned(),
+        "RequestTimeout(0)".to_owned(),
+        "RequestTimeout(5)".to_owned(),
+        "RequestTimeout(3600000)".to_owned(),
+    ];
+    u.extend(attempt_universe());
+    u
+}
+
+/// Universe split by the ORACLE's classification (by variant name only: the property's classes do not depend on
+/// any payload), so that every ignorable value and every definitive value is fed to the execute-level cases.
+fn universe_by_class(attempts_only: bool) -> (Vec<String>, Vec<String>) {
+    let all = if attempts_only { attempt_universe() } else { universe() };
+    all.into_iter().partition(|t| is_ignorable_name(kind_of(t)))
 }
 
 fn db_name(e: &DbError) -> &'static str {
@@ -240,12 +544,13 @@ fn is_ignorable_name(name: &str) -> bool {
 // ------------------------------------------------------------------------------------------------
 
 /// The four outcome classes of a synthetic fiber: S success, D definitive error, I ignorable error, N plan exhausted.
-fn outcome_token(class: char, fiber: usize) -> String {
+/// `k` selects the value inside the class: the sweeps rotate through EVERY ignorable / definitive value of the universe.
+fn outcome_token(class: char, k: usize, pools: &(Vec<String>, Vec<String>)) -> String {
     match class {
         'S' => "ok".to_owned(),
         'N' => "none".to_owned(),
-        'I' => IGN_POOL[fiber % IGN_POOL.len()].to_owned(),
-        _ => DEF_POOL[fiber % DEF_POOL.len()].to_owned(),
+        'I' => pools.0[k % pools.0.len()].clone(),
+        _ => pools.1[k % pools.1.len()].clone(),
     }
 }
 
@@ -255,6 +560,7 @@ fn all_error_names() -> Vec<&'static str> {
 
 fn emit_spec_exhaustive(fibers: usize, interval: u64, maxes: &[usize], delays: &[u64], emit: &mut dyn FnMut(String)) {
     let classes = ['S', 'D', 'I', 'N'];
+    let pools = universe_by_class(false);
     let per = delays.len() * classes.len();
     let total = per.pow(fibers as u32);
     for &max in maxes {
@@ -264,14 +570,16 @@ fn emit_spec_exhaustive(fibers: usize, interval: u64, maxes: &[usize], delays: &
             for f in 0..fibers {
                 let k = c % per;
                 c /= per;
-                line.push_str(&format!(" {}:{}", delays[k / classes.len()], outcome_token(classes[k % classes.len()], f)));
+                // a different value for every fiber of a case, rotating through the whole class over the sweep
+                let pick = code.wrapping_mul(7) + max * 3 + f * 13;
+                line.push_str(&format!(" {}:{}", delays[k / classes.len()], outcome_token(classes[k % classes.len()], pick, &pools)));
             }
             emit(line);
         }
     }
 }
 
-fn random_spec(rng: &mut Rng, max_fibers: usize) -> String {
+fn random_spec(rng: &mut Rng, max_fibers: usize, pools: &(Vec<String>, Vec<String>)) -> String {
     let interval = *rng.pick(&[0u64, 1, 2, 7, 10, 10, 10, 100]);
     let max = rng.below(5) as usize;
     let n = 1 + rng.below(max_fibers as u64) as usize;
@@ -289,16 +597,16 @@ fn random_spec(rng: &mut Rng, max_fibers: usize) -> String {
         let o = match rng.below(12) {
             0 | 1 => "ok".to_owned(),
             2 => "none".to_owned(),
-            3 | 4 => (*rng.pick(&all_error_names())).to_owned(),
-            5 => outcome_token('D', f),
-            _ => outcome_token('I', f),
+            3 => (*rng.pick(&all_error_names())).to_owned(),
+            4 | 5 => outcome_token('D', rng.below(1 << 20) as usize + f, pools),
+            _ => outcome_token('I', rng.below(1 << 20) as usize + f, pools),
         };
         line.push_str(&format!(" {}:{}", d, o));
     }
     line
 }
 
-fn random_gate(rng: &mut Rng, max_targets: usize) -> String {
+fn random_gate(rng: &mut Rng, max_targets: usize, pools: &(Vec<String>, Vec<String>)) -> String {
     let idem = rng.chance(1, 2);
     let pol = if rng.chance(1, 6) {
         "none".to_owned()
@@ -321,9 +629,9 @@ fn random_gate(rng: &mut Rng, max_targets: usize) -> String {
         };
         let o = match rng.below(10) {
             0 | 1 => "ok".to_owned(),
-            2 | 3 => (*rng.pick(&ATTEMPT_NAMES.iter().chain(DB_NAMES.iter()).copied().collect::<Vec<_>>())).to_owned(),
-            4 => (*rng.pick(&DEF_POOL)).to_owned(),
-            _ => (*rng.pick(&IGN_POOL)).to_owned(),
+            2 => (*rng.pick(&ATTEMPT_NAMES.iter().chain(DB_NAMES.iter()).copied().collect::<Vec<_>>())).to_owned(),
+            3 | 4 => rng.pick(&pools.1).clone(),
+            _ => rng.pick(&pools.0).clone(),
         };
         let dec = *rng.pick(&['n', 'n', 'n', 'n', 'd', 'i', 's', 's']);
         line.push_str(&format!(" {}:{}:{}:{}", c, d, o, dec));
@@ -368,9 +676,24 @@ fn emit_gate_exhaustive(targets: usize, emit: &mut dyn FnMut(String)) {
 pub fn generate(rng: &mut Rng, tier: Tier, emit: &mut dyn FnMut(String)) {
     let quick = tier == Tier::Quick;
     // classification table: the whole universe
-    emit("ign ok".to_owned());
+    emit("class ok".to_owned());
     for n in all_error_names() {
-        emit(format!("ign {}", n));
+        emit(format!("class {}", n));
+    }
+    for t in universe() {
+        emit(format!("class {}", t));
+    }
+    let spec_pools = universe_by_class(false);
+    let gate_pools = universe_by_class(true);
+    // every value of the universe as the outcome of the first execution while a second one is pending
+    // (an ignorable one must not end the call, a definitive one must)
+    for t in universe() {
+        emit(format!("spec 1 10 5:{} 20:ok", t));
+        emit(format!("spec 2 10 15:{} 30:Overloaded 0:ok", t));
+    }
+    for t in attempt_universe() {
+        emit(format!("gate 1 1:10 1:5:{}:d 1:20:ok:n", t));
+        emit(format!("gate 1 2:10 1:15:{}:n 1:20:ok:n 1:1:ok:n", t));
     }
     // exhaustive: (delay on the half-interval grid incl. ties with the timer, outcome class) per fiber x max 0..4
     let interval = 10u64;
@@ -391,10 +714,10 @@ pub fn generate(rng: &mut Rng, tier: Tier, emit: &mut dyn FnMut(String)) {
     }
     let scale = if quick { 1 } else { 12 };
     for _ in 0..20_000 * scale {
-        emit(random_spec(rng, 6));
+        emit(random_spec(rng, 6, &spec_pools));
     }
     for _ in 0..30_000 * scale {
-        emit(random_gate(rng, 6));
+        emit(random_gate(rng, 6, &gate_pools));
     }
 }
 
@@ -428,7 +751,7 @@ fn render_result<T>(r: &Result<T, RequestError>, ok: impl Fn(&T) -> String) -> S
     }
 }
 
-fn run_ign(w: &[&str], ctx: &mut Ctx) -> String {
+fn run_class(w: &[&str], ctx: &mut Ctx) -> String {
     if w.len() != 2 {
         return "bad-case".to_owned();
     }
@@ -439,17 +762,26 @@ fn run_ign(w: &[&str], ctx: &mut Ctx) -> String {
             None => return "bad-case".to_owned(),
         },
     };
+    // the REAL classification (`speculative_execution::can_be_ignored`, which delegates to
+    // `DbError::can_speculative_retry`) on the real error value
     let got = hooks::can_be_ignored(&r);
-    let want = w[1] != "ok" && is_ignorable_name(w[1]);
+    // the property's classification: by variant only, whatever the payload
+    let want = w[1] != "ok" && is_ignorable_name(kind_of(w[1]));
     if got != want {
         ctx.fail(format!(
-            "can_be_ignored({}) = {} but the property classifies it as {}",
+            "can_be_ignored({}) = {} but the property classifies every {} as {}",
             w[1],
             got,
-            if want { "ignorable" } else { "a real answer (success or definitive error)" }
+            kind_of(w[1]),
+            if want { "ignorable (may differ on another node: must not end the call)" } else { "a real answer (success or definitive error)" }
         ));
     }
-    got.to_string()
+    if let Err(e) = &r {
+        if request_name(e) != kind_of(w[1]) {
+            ctx.fail(format!("harness built a {} for token {}", request_name(e), w[1]));
+        }
+    }
+    (if got { "ignorable" } else { "definitive" }).to_owned()
 }
 
 fn run_spec(w: &[&str], mutant: Option<u32>, ctx: &mut Ctx) -> String {
@@ -532,7 +864,7 @@ fn run_spec(w: &[&str], mutant: Option<u32>, ctx: &mut Ctx) -> String {
     let real = |o: &Out| match o {
         Out::Ok => true,
         Out::None => false,
-        Out::Err(n) => !is_ignorable_name(n),
+        Out::Err(n) => !is_ignorable_name(kind_of(n)),
     };
     let rendered = render_result(&res, |i| format!("ok:{}", i));
     match done.iter().position(|(_, _, o)| real(o)) {
@@ -540,7 +872,7 @@ fn run_spec(w: &[&str], mutant: Option<u32>, ctx: &mut Ctx) -> String {
             let (_, f, o) = &done[p];
             let want = match o {
                 Out::Ok => format!("ok:{}", f),
-                Out::Err(n) => format!("err:{}", n),
+                Out::Err(n) => format!("err:{}", kind_of(n)),
                 Out::None => unreachable!(),
             };
             if rendered != want {
@@ -554,7 +886,7 @@ fn run_spec(w: &[&str], mutant: Option<u32>, ctx: &mut Ctx) -> String {
             let want = done
                 .iter()
                 .rev()
-                .find_map(|(_, _, o)| if let Out::Err(n) = o { Some(format!("err:{}", n)) } else { None })
+                .find_map(|(_, _, o)| if let Out::Err(n) = o { Some(format!("err:{}", kind_of(n))) } else { None })
                 .unwrap_or_else(|| "err:EmptyPlan".to_owned());
             if rendered != want {
                 ctx.fail(format!("no real answer: returned {} but the last error was {}", rendered, want));
@@ -918,7 +1250,7 @@ fn run_gate(w: &[&str], ctx: &mut Ctx) -> String {
 pub fn run(case: &str, ctx: &mut Ctx) -> String {
     let w: Vec<&str> = case.split_whitespace().collect();
     match w.first().copied() {
-        Some("ign") => run_ign(&w, ctx),
+        Some("class") => run_class(&w, ctx),
         Some("spec") => run_spec(&w, None, ctx),
         // developer self-test of the oracle (never generated): `mut<k>` runs a local copy of the select loop with
         // seeded bug k instead of the driver's `execute`
